@@ -60,6 +60,22 @@ pub fn run(ctx: &mut Ctx, replay: Option<&str>) {
             if wild {
                 f.sel = gen_wild_selection(&mut r, &f.issue.claims, 0).as_object().cloned().unwrap_or_default();
             }
+            // the bookkeeping members of the payload addressed by name and position (no claim is selected by that)
+            if i % 6 == 0 && !matches!(f.issue.strategy, Strategy::None) {
+                let mut g = f.clone();
+                let mut sel = serde_json::Map::new();
+                sel.insert("_sd".into(), json!([true, true, true, true, true, true, true, true, true, true, true, true]));
+                for (k, v) in f.issue.claims.as_object().into_iter().flatten() {
+                    if v.is_object() {
+                        sel.insert(k.clone(), json!({"_sd": [true, true, true, true, true, true, true, true], "...": true}));
+                    } else if v.is_array() {
+                        sel.insert(k.clone(), json!([{"...": true}, {"...": [true]}, {"_sd": [true]}]));
+                    }
+                }
+                g.sel = sel;
+                flows.push((g, true));
+                ctx.count("stream.bookkeeping_members_selected_by_position");
+            }
             flows.push((f, wild));
         }
     }
